@@ -156,7 +156,7 @@ class CorrelationFunction(DFunction, UnitsManaged):
                 #
                 # loop over parameter sets
                 #
-                for prms in self.params:
+                for params, prms in zip(p2calc, self.params):
                     
 #                    try:
 #                        ftype = params["ftype"]
@@ -175,6 +175,9 @@ class CorrelationFunction(DFunction, UnitsManaged):
 #                    except:
 #                        raise Exception("Dictionary of parameters does not contain "
 #                                        +" `ftype` key")                    
+        
+                    # each component is created according to its own type
+                    ftype = prms["ftype"]
         
                     if ftype == "OverdampedBrownian-HighTemperature":
             
